@@ -60,9 +60,10 @@ _FILTERS = {
     'obj:Post': ('exists', ('spath', 'title')),
 }
 _SHAPES = {
-    'obj:Person': [('name', None), ('friends', ('nested', [('name', None), ('best', ('nested', [('nick', None)]))])),
+    'obj:Person': [('name', None), ('friends', ('nested', [('name', None), ('tags', None), ('best', ('nested', [('nick', None)]))])),
                    ('n', ('count', ('spath', 'friends'))), ('tags', None)],
     'obj:Post': [('title', None), ('author', ('nested', [('name', None), ('age', None)])),
+                 ('likes', ('nested', [('tags', None), ('friends', ('nested', [('name', None)]))])),
                  ('fans', ('path', ('spath', 'likes'), 'name'))],
 }
 _DEFAULT = {'str': ('str', 'd'), 'int': ('int', 0)}
